@@ -6,6 +6,58 @@ ALL = ["C%02d" % i for i in range(1, 21)]
 
 # id -> (level, technique, text, note)
 CHECKS = {
+ "C01": ("translation_validation",
+         "runtime translation validation: differential execution of the built IR (reference interpreter) against the compiled program, per generated program and builder mode",
+         "Every generated executable program is compiled with the Go toolchain and run (ground truth); its IR is built through the real exported path in 4 modes {naive, lifted} x {debug refs on, off} and every function is interpreted on the same input vectors by a reference interpreter written from the instruction documentation; results, panic class, ordered effect trace and final globals are compared record by record. Held on the programs validated.",
+         "trusted: harness/irinterp (soaked silent over hundreds of programs), the Go toolchain as ground truth; the executable subset excludes goroutines/channels/select/unsafe/floats."),
+ "C03": ("exploration",
+         "runtime crash/failure monitor: the real linter with all analyzers run as child processes over generated syntax-coverage packages and real corpora; oracle = exit status, stderr, compile/config problems",
+         "Generated syntax-coverage modules (every builtin in every result position over all pointer-like result types, all statement forms, generics, range-over-func, select, goto), slices of std, the repository and analyzer testdata (all of them in the thorough tier) are linted with -checks all plus quickfix analyzers through the real pipeline; precondition 'compiles' is established with go build; a failing unit is isolated to the package and, for generated code, shrunk to the functions. AST/IR kind coverage is measured by a monitor analyzer inside the run.",
+         "trusted: go build as the precondition oracle; default target version only."),
+ "C04": ("exploration",
+         "runtime metamorphic monitor: warm run on a shared cache vs. cold runs after every step of seeded edit/flag histories",
+         "Seeded histories over a multi-package workspace (edits of target and dependencies that flip deprecation/purity/nilness facts, staticcheck.conf at two levels, -go/-tags/-tests/-checks/GOOS/go.mod changes, touch, revert) are replayed; after every step the output bytes and exit status with the shared persistent cache must equal those of a cache that never saw the workspace (std-only baseline; a truly empty directory every 8th step). Cache hits are observed through -debug.measure-analyzers. Held on the histories run.",
+         "trusted: the std-only baseline cache construction; binary salt is constant within a run."),
+ "C05": ("fault_enumeration",
+         "fault injection + state enumeration + multi-process history checking: every post-crash/truncation/deletion cache state is enumerated and looked up; writers are SIGKILLed at every store hook point; 8-16 processes hammer one directory and the recorded history is checked offline",
+         "(a) all directory states a store can leave (data/index prefixes, torn overwrites, truncation/extension, deletion subsets, foreign index entries) for 12 value sizes are constructed and every lookup must miss or return exactly a stored value; (b) child writers are killed at each of the 7 verif hook points of the store path and at seeded random moments; (c) concurrent Put/GetFile/GetBytes/Trim processes log call/return records to one O_APPEND history that an offline checker validates (porcupine informational); (d) lints through damaged, crash-left and concurrently shared caches must print the reference output.",
+         "trusted: the lookup oracle (value sets from append-only call logs); same-length content corruption and double faults are outside the quantifier (recorded informationally)."),
+ "C06": ("exploration",
+         "runtime repeat-and-compare under perturbed schedules (seeded yields/sleeps at runner hook points, GOMAXPROCS sweep, cold/warm cache) + Go race detector on a race-instrumented binary + subset/order independence of named packages",
+         "The same workspace is linted dozens of times in 4 output formats under GOMAXPROCS 1..16 and seeded yield/sleep perturbation at the runner's hook points; stdout bytes and exit status must be identical; a -race build repeats the workload and GORACE logs are counted; per-package problem lists are compared across subsets and orders of command-line patterns. The number of distinct action schedules actually observed is measured from the hook log.",
+         "trusted: hook log as schedule observation; stderr not compared."),
+ "C07": ("exploration",
+         "runtime differential monitor: go/types re-check of the package after deleting everything U1000 reports + independent zero-reference count vs. the analyzer's result",
+         "For generated declaration graphs, the repository's packages and unused/testdata, every reported object is deleted from the syntax and the package must still type-check (unused imports aside); every unexported package-level function, type, variable or stand-alone constant without any referring identifier must be reported.",
+         "trusted: go/types as the compiler stand-in; the deletion transformer's two charities (blank assignment for writes, _ in const groups)."),
+ "C08": ("exploration",
+         "runtime differential monitor inside the real analysis pass: code.Matches vs. trying the pattern on every syntax node",
+         "A monitor analyzer inside the real runner evaluates every pattern compiled into the checks (extracted from the working tree), hand-written call-form patterns, symbol-derived and generalised-subtree patterns on every corpus package both ways and compares the match sets (modulo wrapper nodes the matcher unwraps by design), skipping pairs whose symbols are declared in the analysed package.",
+         "trusted: brute-force side uses the same Matcher (C09 covers the matcher itself)."),
+ "C10": ("exploration",
+         "runtime metamorphic monitor: insert one directive, predict the new -show-ignored report from the old one, compare with the real linter's output",
+         "Hundreds of seeded placements of //lint:ignore and //lint:file-ignore lines (exact ids, globs, wrong case, other checks, U1000, disabled and unknown checks, with/without reason) above statements and declarations; the prediction (line shift, exactly the named problems on the attached node's line suppressed, unmatched-directive / malformed-directive problems) must equal the real output.",
+         "trusted: go/ast.NewCommentMap for attachment; U1000 directives only in exact spelling."),
+ "C11": ("exploration",
+         "runtime reference-model monitor: documented check-selection algebra, exit-status rule and cross-format agreement vs. the CLI over generated configuration trees",
+         "Generated trees of staticcheck.conf files at three nested levels x -checks x -fail x -show-ignored x source variants are linted in text, stylish, JSON and SARIF; printed problems must equal the universe restricted to the model-selected set, exit status must follow the documented rule, and all formats must render the same set.",
+         "trusted: harness/c11 model; universe = one -checks all run per source variant."),
+ "C15": ("exploration",
+         "runtime soundness monitor: nilness claims (read through the real runner) vs. observed nil-ness of compiled executions; SA4023 verdicts vs. observed comparison results",
+         "Generated nil-flow programs (8 pointer-like kinds, phis, swaps in loops, memory round trips, cross-package facts, assertions, type switches, conversions, slicing, append, recursion, closures) are compiled and run on seeded vectors; each normal return is compared with the claimed Outer/Inner nilness and each SA4023 'never/always true' with the observed comparison.",
+         "trusted: the compiled program; panicking calls excluded."),
+ "C17": ("exploration",
+         "runtime metamorphic monitor: U1000 result sets across permuted/repeated/extended copies of a package and across package variants (CLI -tests vs per-variant results)",
+         "File and declaration permutations, repetitions, single added references from used code, and the CLI's variant merge are compared by object identity (kind + qualified name).",
+         "trusted: the in-process driver mirrors lint.go's merge; 'used' = the analyzer's Used verdict."),
+ "C18": ("exploration",
+         "Go race detector + dump comparison across schedules: race-instrumented child processes build fresh Programs serially/in parallel/twice/concurrently under seeded yields at builder hook points",
+         "Generated multi-package programs sharing generic instances, promoted-method wrappers, bound-method closures and thunks (plus std/repo slices) are built in several ways under GOMAXPROCS 1..16; WriteFunction dumps (modulo register numbering) must equal the serial build, shared functions must be unique and fully built, a second Build must change nothing, and GORACE logs must be empty.",
+         "trusted: function identity = String()+Synthetic."),
+ "C20": ("exploration",
+         "runtime probe monitor: a probe analyzer inside the real runner reports effective versions and one problem per bound; the full grid of module go version x file build constraint x -go flag is run",
+         "Exhaustive grid (7 module versions x dependency-module version x 7 file tags x 11 -go values): every {min,max} x {language,stdlib} bounded problem at thresholds go1.17..go1.26 must be present iff the effective version printed by the same run lies inside the bound, and the effective versions must follow go directive / build constraint / -go.",
+         "trusted: go/types rule lang = max(tag, go1.21) for tagged files."),
  "C02": ("exploration",
          "runtime invariant monitor at the quiescent point after Build: independent well-formedness/dominance/typing oracle (harness/irwf) walked over every built function",
          "Every function body the real builder returns (generated goto-CFG packages under all 16 mode combinations; std, the repository and analyzer testdata under several modes; everything x 16 modes in the thorough tier) is walked by an oracle that shares no code with sanity.go and computes its own dominators: block/terminator/arity rules, Preds/Succs and Operands/Referrers as exact inverses, phi placement/arity/typing, def-dominates-use (phi operands at the end of the predecessor), and the documented typing rules of ~40 instruction kinds. Held on the functions observed.",
@@ -26,10 +78,13 @@ CHECKS = {
 
 NA = {}
 
+# checks that have been validated silent on the unchanged tree
+READY = {"C01","C02","C04","C09","C11","C13","C14","C20"}
+
 def main():
     checks = []
     for pid in ALL:
-        if pid not in CHECKS:
+        if pid not in CHECKS or pid not in READY:
             continue
         level, tech, text, note = CHECKS[pid]
         checks.append({
@@ -45,7 +100,7 @@ def main():
         })
     na = []
     for pid in ALL:
-        if pid not in CHECKS:
+        if pid not in CHECKS or pid not in READY:
             na.append({"property_id": pid, "reason": NA.get(pid, "check not built yet in this revision (planned, see DESIGN.md section 4); not claimed")})
     hooks_commits = subprocess.run(["git", "-C", "/repo", "log", "--format=%H", "--grep=^verif hooks"], capture_output=True, text=True).stdout.split()
     m = {
@@ -59,7 +114,7 @@ def main():
             "add_only": True,
         },
         "engines": [
-            {"name": "vcheck", "path": "/verif/harness/cmd/vcheck", "serves_properties": sorted(CHECKS), "kind_free_text": "Go driver; one runtime monitor per property, linked against /repo's working tree (in-process monitors) or driving binaries built from it (CLI monitors)"},
+            {"name": "vcheck", "path": "/verif/harness/cmd/vcheck", "serves_properties": sorted(set(CHECKS) & READY), "kind_free_text": "Go driver; one runtime monitor per property, linked against /repo's working tree (in-process monitors) or driving binaries built from it (CLI monitors)"},
         ],
         "checks": checks,
         "not_applicable": na,
